@@ -1,5 +1,6 @@
 import CogentModel.Json
 import CogentModel.Model.Optimiser
+import CogentModel.Model.ScopedRules
 open CogentModel CogentModel.Optimiser
 
 /-- objective values: extended rationals -/
@@ -65,6 +66,20 @@ def errJ (e : MapErr) : J :=
     | .assertion => "AssertionError" | .tie => "ValueError" | .noRef => "IndexError"))]
 
 def rulesJ (rs : List (String × Rat)) : J := J.arr (rs.map fun r => J.arr [J.str r.1, J.ofRat r.2])
+
+
+/-- a rule `{"par": s, "edges": null | [s…], "single": bool, "val": "n/d"}` -/
+def parseRule (j : J) : Except String (ScopedRules.Rule String Rat) := do
+  let edges ← match ← j.get "edges" with
+    | J.null => pure none
+    | e => do pure (some (← e.toListOf J.toStr))
+  pure { par := ← (← j.get "par").toStr, edges := edges, single := ← (← j.get "single").toBool,
+         val := ← (← j.get "val").toRat }
+
+def ruleJ (r : ScopedRules.Rule String Rat) : J :=
+  J.obj [("par", J.str r.par),
+         ("edges", match r.edges with | none => J.null | some es => J.arr (es.map J.str)),
+         ("single", J.bool r.single), ("val", J.ofRat r.val)]
 
 def handle (cmd : String) (j : J) : Except String J :=
   match cmd with
@@ -144,6 +159,13 @@ def handle (cmd : String) (j : J) : Except String J :=
         match projectNotSame (· * ·) (· / ·) (1 : Rat) (fun k => pi.getD k 0) ref pass rich ch rules with
         | .error e => pure (errJ e)
         | .ok pr => pure (J.obj [("rules", rulesJ pr)])
+  | "scoped" => do
+    let rich ← (← j.get "rich").toListOf parseRule
+    let null ← (← j.get "null").toListOf parseRule
+    let chars : String → List String := fun s => s.toList.map (fun c => String.singleton c)
+    match ScopedRules.updateScoped chars rich null with
+    | .error _ => pure (J.obj [("err", J.str "ValueError")])
+    | .ok out => pure (J.obj [("rules", J.arr (out.map ruleJ))])
   | _ => throw s!"unknown command {cmd}"
 
 def main : IO Unit := driverLoop handle
